@@ -213,7 +213,9 @@ Definition is_nil {A} (l : list A) : bool := match l with [] => true | _ => fals
    the first or last line  -> here: a piece before or a piece after (blanks, one ';' and a
    comment are not represented).  Then the lines are replaced by ONE line
    prefix + '; '.join(statements) + suffix, otherwise by one line per statement.
-   [lines[a:b+1] = ...] is Python slice assignment (an empty slice at a when b+1 < a). *)
+   [lines[a:b+1] = ...] is Python slice assignment (an empty slice at a when b+1 < a);
+   [lines[a]] / [lines[b]] out of range would be an IndexError in Python and is [] here - it
+   cannot happen when the positions are those of [ast_view ls] (the theorems' hypothesis). *)
 Definition splice (r : replacement) (ls : list line) : list line :=
   let '((a, p), (b, q), stmts) := r in
   let prefix := firstn p (nth a ls []) in
